@@ -175,3 +175,53 @@ var QueryCalls int
 
 //@ commute (*UploadMap).extract loop 0: assumed: each entry replaces its own value (key k of this map) and appends to the upload list (bag); the numbering of multipart parts follows that list consistently within one request
 //@ commute extractFiles loop 0: assumed: as (*UploadMap).extract - per-variable footprint plus bag accumulation of uploads
+
+// ---- C07/C09: the upload helpers run for every sub-request: none of their instructions may panic
+// for arbitrary decoded variables (safety-only contracts) ----
+
+//@ nonnil-elems *UploadMapItem
+//@ nonnil-field UploadMapItem.upload
+//@ assume-nonnil-boxed *requests.Upload
+
+//@ extern mime/multipart (*Writer).CreateFormField
+//@ returns fw, err
+//@ ensures err == nil ==> fw != nil
+//@ modifies-assumed fresh
+//@ end
+
+//@ extern mime/multipart (*Writer).CreateFormFile
+//@ returns fw, err
+//@ ensures err == nil ==> fw != nil
+//@ modifies-assumed fresh
+//@ end
+
+//@ func (UploadMap).Map
+//@ props C07 C09
+//@ end
+
+//@ func (UploadMap).Empty
+//@ props C07 C09
+//@ end
+
+//@ func (*UploadMap).Add
+//@ props C07 C09
+//@ requires u != nil && upload != nil
+//@ end
+
+//@ func extractFiles
+//@ props C07 C09
+//@ end
+
+//@ func (*UploadMap).extract
+//@ props C07 C09
+//@ requires u != nil
+//@ end
+
+//@ func prepareMultipart
+//@ props C07 C09
+//@ end
+
+//@ func (*MultiOpQueryer).sendMultipartRequest
+//@ props C07 C09
+//@ requires q != nil && forall(k, 0, len(q.mdwares), q.mdwares[k] != nil)
+//@ end
